@@ -50,7 +50,7 @@ S.cls("queue.Queue", {}, external=True)
 M.cls("_ThreadWakeup", {"_closed": T.Bool, "_reader": T.Ref("Connection"), "_writer": T.Ref("Connection")})
 M.cls("_ExecutorFlags", {"shutdown": T.Bool, "broken": T.Exc(nullable=True), "kill_workers": T.Bool,
                          "shutdown_lock": T.Ref("threading.Lock")})
-M.cls("_WorkItem", {"future": T.Ref("Future"), "fn": T.Obj, "args": T.Obj, "kwargs": T.Obj})
+M.cls("_WorkItem", {"future": T.Ref("Future"), "fn": T.Obj, "args": T.Obj, "kwargs": T.Obj, "loky_pickler": T.Opt(T.Str)})
 M.cls("_ResultItem", {"work_id": T.Int, "exception": T.Obj, "result": T.Obj})
 M.cls("_CallItem", {"work_id": T.Int, "fn": T.Obj, "args": T.Obj, "kwargs": T.Obj, "loky_pickler": T.Opt(T.Str)})
 M.cls("_ExceptionWithTraceback", {"exc": T.Obj, "tb": T.Obj})
@@ -203,7 +203,11 @@ i.iter_post("timeout-continues-only-without-lock",
 c = M.contract("_ExecutorFlags.flag_as_shutting_down", props=["C05", "C06"])
 c.param("self", T.Ref("_ExecutorFlags")).param("kill_workers", T.Opt(T.Bool), default=NONE)
 c.ensures("flags/shutdown-set", "self.shutdown == True")
-c.ensures("flags/kill-workers-as-requested", "self.kill_workers == ite(is_none(kill_workers), old(self.kill_workers), the(kill_workers))")
+# from the property ("forced shutdown is total"): a request to kill, once recorded, stands; a later plain shutdown (the one a with-block issues on exit, the
+# reusable factory replacing the instance) never turns it back into a drain; a request is recorded whenever it is made, also on an executor already shutting down
+c.ensures("flags/a-kill-request-is-recorded-and-never-withdrawn",
+          "self.kill_workers == (old(self.kill_workers) or (not is_none(kill_workers) and the(kill_workers)))", prop="C06")
+c.replay_for("flags/a-kill-request-is-recorded-and-never-withdrawn", "kill_request_withdrawn")
 c.ensures("flags/under-shutdown-lock", "log_tags() == ['acquire', 'release'] and log_arg('acquire', 0, 0) is self.shutdown_lock")
 c.ensures("flags/broken-untouched", "self.broken is old(self.broken)")
 c.raises_only("flags/no-exception")
@@ -242,7 +246,7 @@ i.inv("trivial", "True")
 EMT = "_ExecutorManagerThread"
 WF_IDS = "forall(Int, lambda k: implies(G.work_ids[k], k in self.pending_work_items))"
 
-c = M.contract(f"{EMT}.add_call_item_to_queue", props=["C03", "C04"])
+c = M.contract(f"{EMT}.add_call_item_to_queue", props=["C03", "C04", "C15"])
 c.param("self", T.Ref(EMT))
 c.rely("ids-queued-are-pending", WF_IDS, "A-atomic")
 c.ensures("dispatch/ids-queued-stay-pending", WF_IDS)
@@ -258,6 +262,10 @@ i.iter_post("dispatch/call-item-carries-own-work-item",
             "as_(item, '_CallItem').fn is self.pending_work_items[log_arg('wq_get', 0, 1)].fn and "
             "as_(item, '_CallItem').args is self.pending_work_items[log_arg('wq_get', 0, 1)].args and "
             "as_(item, '_CallItem').kwargs is self.pending_work_items[log_arg('wq_get', 0, 1)].kwargs)", prop="C03")
+i.iter_post("dispatch/call-item-carries-the-pickler-recorded-at-submission",
+            "all_events('cq_put', lambda q, item: isinstance_(item, _CallItem) and "
+            "implies(self.pending_work_items[log_arg('wq_get', 0, 1)].loky_pickler is not None, "
+            "as_(item, '_CallItem').loky_pickler == self.pending_work_items[log_arg('wq_get', 0, 1)].loky_pickler))", prop="C15")
 i.iter_post("dispatch/cancelled-never-dispatched",
             "implies(log_count('set_running') == 1 and not log_arg('set_running', 0, 1), "
             "log_count('cq_put') == 0 and log_arg('wq_get', 0, 1) not in self.pending_work_items)", prop="C03")
@@ -492,7 +500,7 @@ c.raises("terminate/only-from-joining-internals", "BaseException",
 c.assumes("A-atomic")
 c.at_call("Future.set_exception", "no-lock-held-while-the-callbacks-of-the-future-run", "no_lock_held()", prop=["C04", "C02"])
 c.replay_for("only-from-joining-internals", "cancelled_pending_future", mode="'terminate_broken'")
-i = M.invariant(f"{EMT}.terminate_broken", 0, "for work_item in self.pending_work_items.values():")
+i = M.invariant(f"{EMT}.terminate_broken", 0, "for work_item in ")
 i.inv("visited-futures-failed", "forall(Ref('_WorkItem'), lambda w: implies(mem(__seen0, w), (G.fut_exc[w.future] is bpe and "
       "G.fut_n_exc[w.future] >= old(G.fut_n_exc[w.future]) + 1) or G.fut_refused[w.future] >= old(G.fut_refused[w.future]) + 1))")
 i.inv("counts-only-grow", "forall(Ref('Future'), lambda f: G.fut_n_exc[f] >= old(G.fut_n_exc[f]) and G.fut_refused[f] >= old(G.fut_refused[f]))")
@@ -675,7 +683,7 @@ c.ensures("start/exit-hook-registered-once", "implies(old(process_pool_executor_
 c.raises("start/thread-creation-may-fail", "RuntimeError")
 c.modifies("self._executor_manager_thread", f"glob:{PE}.process_pool_executor_at_exit", "G.referent")
 
-c = M.contract(f"{PPE}._ensure_executor_running", props=["C08", "C07", "C02"])
+c = M.contract(f"{PPE}._ensure_executor_running", props=["C08", "C07", "C02", "C20"])
 c.param("self", T.Ref(PPE))
 c.rely("registered-pids-are-live-children", "forall(Int, lambda k: implies(k in self._processes, G.pid_live[k]))", "A-pids")
 c.requires("not-shut-down", "self._processes_management_lock is not None and self._call_queue is not None and self._result_queue is not None and "
@@ -693,12 +701,22 @@ c.ensures("ensure/manager-woken-after-registering-workers-so-that-it-watches-the
           "ordered('call:ProcessPoolExecutor._adjust_process_count', lambda *a: True, 'call:_ThreadWakeup.wakeup', lambda r, w: w is self._executor_manager_thread_wakeup) and "
           "exists_event('call:_ThreadWakeup.wakeup', lambda r, w: w is self._executor_manager_thread_wakeup))", prop="C02")
 c.replay_for("manager-woken-after-registering-workers", "unwatched_new_worker")
-c.raises("ensure/failed-spawn-or-wakeup-releases-the-lock", "Exception",
-         post="log_tags()[-1] == 'release' and len(self._processes) <= max(old(len(self._processes)), self._max_workers)", prop="C08")
+# C20 / C02: a spawn that fails half-way (EAGAIN on the second of two workers) must not leave the workers already started without a manager thread: nobody
+# would send them a sentinel at shutdown (they outlive the executor) nor notice their death
+c.raises("ensure/failed-spawn-or-wakeup-releases-the-lock-and-leaves-no-worker-without-a-manager-thread", "Exception",
+         post="log_tags()[-1] == 'release' and len(self._processes) <= max(old(len(self._processes)), self._max_workers) and "
+              "implies(len(self._processes) > 0 and log_count('raise:ProcessPoolExecutor._start_executor_manager_thread') == 0, self._executor_manager_thread is not None)",
+         prop=["C08", "C20", "C02"])
+c.replay_for("ensure/failed-spawn-or-wakeup-releases-the-lock-and-leaves-no-worker-without-a-manager-thread", "partial_spawn_failure")
+# the remaining case, its own clause: the manager thread itself cannot be started ("can't start new thread") after workers were spawned
+c.raises("ensure/a-manager-thread-that-cannot-be-started-leaves-no-worker-behind", "Exception",
+         post="implies(len(self._processes) > 0 and log_count('raise:ProcessPoolExecutor._start_executor_manager_thread') >= 1, self._executor_manager_thread is not None)",
+         prop=["C20", "C02"])
+c.replay_for("ensure/a-manager-thread-that-cannot-be-started-leaves-no-worker-behind", "partial_spawn_failure", mode="'thread'")
 c.raises_only("ensure/only-spawn-or-pipe-errors")
 c.modifies("contents(self._processes)", "G.started", "G.pid_live", "G.proc_of_pid", "self._executor_manager_thread", f"glob:{PE}.process_pool_executor_at_exit", "G.referent")
 
-c = M.contract(f"{PPE}.submit", props=["C02", "C03", "C05", "C07", "C08"])
+c = M.contract(f"{PPE}.submit", props=["C02", "C03", "C05", "C07", "C08", "C15"])
 c.param("self", T.Ref(PPE)).param("fn", T.Obj).varargs("args").kwargs("kwargs")
 c.returns(T.Ref("Future"))
 c.rely("registered-pids-are-live-children", "forall(Int, lambda k: implies(k in self._processes, G.pid_live[k]))", "A-pids")
@@ -731,6 +749,10 @@ c.ensures("submit/id-queued-then-manager-woken-then-pool-topped-up",
           "log_count('call:ProcessPoolExecutor._ensure_executor_running') == 1 and "
           "log_before('wq_put', 'call:_ThreadWakeup.wakeup') and log_before('call:_ThreadWakeup.wakeup', 'call:ProcessPoolExecutor._ensure_executor_running')",
           prop=["C03", "C07", "C08"])
+# C15: "the pickler selected when a task is *submitted* is the one its worker uses": the name has to be read inside submit(), not later by the manager thread
+c.ensures("submit/reads-the-pickler-selected-at-submission", "log_count('call:get_loky_pickler_name') == 1 and "
+          "self._pending_work_items[old(self._queue_count)].loky_pickler == log_arg('call:get_loky_pickler_name', 0, 0)", prop="C15")
+c.replay_for("submit/reads-the-pickler-selected-at-submission", "pickler_recorded_at_dispatch")
 c.ensures("submit/rep-invariants-kept", "forall(Int, lambda k: implies(G.work_ids[k], k in self._pending_work_items)) and "
           "forall(Int, lambda k: implies(k in self._pending_work_items, k < self._queue_count))", prop="C03")
 c.ensures("submit/under-the-shutdown-lock", "log_arg('acquire', 0, 0) is self._flags.shutdown_lock and log_pos('acquire', 0) == 0", prop="C03")
@@ -740,6 +762,7 @@ c.modifies("self._queue_count", "contents(self._pending_work_items)", "G.work_id
 c.cover("healthy", "True")
 c.twin("submit/only-on-a-healthy-executor", "old(self._flags.shutdown)")
 
+S.ghost("concurrent_shutdown", z3.BoolSort(), "another thread completed a shutdown() of the same executor while this call waited for a lock")
 c = M.contract(f"{PPE}.shutdown", props=["C05", "C06", "C20"])
 c.param("self", T.Ref(PPE)).param("wait", T.Bool, default=VBool(True)).param("kill_workers", T.Bool, default=VBool(False))
 c.rely("flags-lock-is-the-shutdown-lock", "self._flags.shutdown_lock is self._shutdown_lock and self._shutdown_lock is not _global_shutdown_lock", "A-alias")
@@ -760,16 +783,26 @@ c.ensures("shutdown/drops-fd-holding-references-once-the-manager-thread-is-gone"
           "implies(wait or old(self._executor_manager_thread) is None, self._executor_manager_thread is None and self._executor_manager_thread_wakeup is None and "
           "self._call_queue is None and self._result_queue is None and self._processes_management_lock is None)", prop="C20")
 c.ensures("shutdown/keeps-what-a-still-running-manager-thread-needs-to-replace-a-worker",
-          "implies(not wait and old(self._executor_manager_thread) is not None, self._call_queue is old(self._call_queue) and "
+          "implies(not wait and old(self._executor_manager_thread) is not None and not G.concurrent_shutdown, self._call_queue is old(self._call_queue) and "
           "self._result_queue is old(self._result_queue) and self._processes_management_lock is old(self._processes_management_lock))", prop=["C05", "C07"])
 # a later shutdown(wait=True) / shutdown(kill_workers=True) must still be able to wake and join a manager thread that an earlier shutdown(wait=False) left running
 c.ensures("shutdown/keeps-its-handle-on-a-manager-thread-it-did-not-join",
-          "implies(not wait and old(self._executor_manager_thread) is not None, self._executor_manager_thread is old(self._executor_manager_thread) and "
+          "implies(not wait and old(self._executor_manager_thread) is not None and not G.concurrent_shutdown, self._executor_manager_thread is old(self._executor_manager_thread) and "
           "self._executor_manager_thread_wakeup is old(self._executor_manager_thread_wakeup))", prop=["C05", "C06"])
 c.replay_for("keeps-its-handle-on-a-manager-thread-it-did-not-join", "second_shutdown_after_nowait")
-c.raises("shutdown/only-pipe-errors-from-wakeup", "Exception")
+# two threads may call shutdown at the same time (a user thread and the reusable factory replacing the instance, __exit__ and an explicit call): while this one
+# waits for a lock the other one may complete and drop the five references (its own postcondition above). Rely/guarantee encoding: at every lock wait the five
+# fields are havocked to "None or as they were", the ghost G.concurrent_shutdown records that this happened; the clauses about what *this* call keeps are stated
+# for the runs where it did not; nothing but an error of the wake-up pipe may escape in any run
+SD_FIELDS = ["self._executor_manager_thread", "self._executor_manager_thread_wakeup", "self._call_queue", "self._result_queue", "self._processes_management_lock"]
+c.rely("no-other-shutdown-has-completed-in-between-yet", "not G.concurrent_shutdown", "A-yield")
+c.yield_at("threading.Lock.__enter__", SD_FIELDS + ["G.concurrent_shutdown"],
+           guarantee=" and ".join(f"({f_} is None or {f_} is old({f_}))" for f_ in SD_FIELDS) + " and (G.concurrent_shutdown or (" +
+           " and ".join(f"{f_} is old({f_})" for f_ in SD_FIELDS) + "))", tag="A-yield")
+c.raises("shutdown/only-pipe-errors-from-wakeup-also-when-another-thread-shuts-down-at-the-same-time", "Exception", post="log_count('raise:_ThreadWakeup.wakeup') == 1")
+c.replay_for("shutdown/only-pipe-errors-from-wakeup-also-when-another-thread-shuts-down-at-the-same-time", "concurrent_shutdown")
 c.modifies("self._flags.shutdown", "self._flags.kill_workers", "self._executor_manager_thread", "self._executor_manager_thread_wakeup",
-           "self._call_queue", "self._result_queue", "self._processes_management_lock")
+           "self._call_queue", "self._result_queue", "self._processes_management_lock", "G.concurrent_shutdown")
 
 # ---------------------------------------------------------------- feeder error path (C04)
 c = M.contract("_SafeQueue._on_queue_feeder_error", props=["C04"])
@@ -880,9 +913,12 @@ c.cover("default-size", "is_none(max_workers)")
 
 c = M.contract("_CallItem.__init__", props=["C15", "C03"])
 c.param("self", T.Ref("_CallItem")).param("work_id", T.Int).param("fn", T.Obj).param("args", T.Obj).param("kwargs", T.Obj)
+c.param("loky_pickler", T.Opt(T.Str), default=NONE)
 c.ensures("callitem/carries-the-task", "self.work_id == work_id and self.fn is fn and self.args is args and self.kwargs is kwargs")
-c.ensures("callitem/records-the-pickler-in-force-at-submission",
-          "log_count('call:get_loky_pickler_name') == 1 and self.loky_pickler == log_arg('call:get_loky_pickler_name', 0, 0)")
+c.ensures("callitem/carries-the-pickler-recorded-at-submission-or-the-current-one-when-none-is-given",
+          "ite(is_none(loky_pickler), log_count('call:get_loky_pickler_name') == 1 and self.loky_pickler == log_arg('call:get_loky_pickler_name', 0, 0), "
+          "log_count('call:get_loky_pickler_name') == 0 and self.loky_pickler == loky_pickler)")
+c.ensures("callitem/a-given-pickler-name-is-kept", "implies(not is_none(loky_pickler), self.loky_pickler == loky_pickler)")
 c.raises_only("callitem/no-exception")
 c.modifies("self.work_id", "self.fn", "self.args", "self.kwargs", "self.loky_pickler")
 
